@@ -109,6 +109,11 @@ func (qs *QueryStore) RebuildIndexes() error {
 		for it.Seek(prefix); it.ValidForPrefix(prefix); it.Next() {
 			// Load item and unmarshal it
 			item := it.Item()
+			// Skip entries without value, such as index entries and the
+			// init marker, which share the key space when no prefix is set.
+			if item.ValueSize() == 0 {
+				continue
+			}
 			v := reflect.New(t)
 			err := item.Value(func(dta []byte) error {
 				return json.Unmarshal(dta, v.Interface())
